@@ -1,32 +1,23 @@
 package main
 
 import (
-	"bytes"
 	"fmt"
-
-	"github.com/hydraide/hydraide/app/core/compressor"
+	"io"
+	"os"
+	"time"
 )
 
 func main() {
-	for _, in := range [][]byte{{7, 9}, []byte("hello hydraide"), bytes.Repeat([]byte("abcdefgh"), 500)} {
-		c := compressor.New(compressor.LZ4)
-		comp, _ := c.Compress(in)
-		fmt.Printf("input %d bytes, compressed %d: % x\n", len(in), len(comp), comp[:min(len(comp), 32)])
-		for p := 0; p < len(comp); p++ {
-			for b := 0; b < 8; b++ {
-				d := append([]byte{}, comp...)
-				d[p] ^= 1 << b
-				out, err := c.Decompress(d)
-				if err == nil && !bytes.Equal(out, in) {
-					fmt.Printf("  flip byte %d bit %d -> %d bytes, prefix=%v % x\n", p, b, len(out), len(out) <= len(in) && bytes.Equal(out, in[:len(out)]), out[:min(len(out), 8)])
-				}
-			}
-		}
-		for p := 0; p < len(comp); p++ {
-			out, err := c.Decompress(comp[:p])
-			if err == nil {
-				fmt.Printf("  truncate to %d -> %d bytes same=%v\n", p, len(out), bytes.Equal(out, in))
-			}
-		}
+	f, _ := os.Open("/verif/BUILDING.md")
+	defer f.Close()
+	for _, n := range []uint32{1 << 28, 1 << 30, 0x7FFFFFFF, 0xFFFFFFFF} {
+		t0 := time.Now()
+		b := make([]byte, n)
+		t1 := time.Now()
+		f.Seek(0, 0)
+		_, err := io.ReadFull(f, b)
+		t2 := time.Now()
+		fmt.Println(n, "make", t1.Sub(t0), "readfull", t2.Sub(t1), err)
+		b = nil
 	}
 }
